@@ -7,6 +7,9 @@ set_option linter.unusedVariables false
   g0  op
   g1  antenna   `A pos(3) z(3) x(3) af eff`  (raw axes, `Antenna.__init__`)
                 `D pos(3) orientation(3) centre bandwidth (height|-) tape(3k)`  (`DipoleAntenna.__init__`)
+                optionally followed by the history of the object, records separated by `;`:
+                `; so z(3) x(3)` set_orientation (the state changes even when it raises) `; pos p(3)` `; af v`
+                `; eff v` `; zax v(3)` `; xax v(3)` (plain attribute assignments)
   g2  gains     `unit` | `dipole` | `custom c0 … c6`
                  (dg θ φ = sinθ·(c0 + c1·cosφ + c6·sinφ) + c2·θ ; pg p = c3·x̂·p + c4·ẑ·p + c5·(ẑ×x̂)·p)
   g3  direction `-` | 3 floats
@@ -49,8 +52,29 @@ def vtOfTok : String → Option VType
   | "power" => some VType.power
   | _ => none
 
+def splitSemi (ts : List String) : List (List String) :=
+  let rec go (acc : List String) (out : List (List String)) : List String → List (List String)
+    | [] => (acc.reverse :: out).reverse
+    | t :: r => if t == ";" then go [] (acc.reverse :: out) r else go (t :: acc) out r
+  go [] [] ts
+
+/-- one history record applied to the antenna state -/
+def applyRecord (A : Antenna) (rec : List String) : Option Antenna :=
+  match rec with
+  | "so" :: r => do
+    let fs ← floatsOfToks r
+    match fs with
+    | [z1, z2, z3, x1, x2, x3] => pure (A.setOrientation ⟨z1, z2, z3⟩ ⟨x1, x2, x3⟩).1
+    | _ => none
+  | "pos" :: r => do let v ← (floatsOfToks r).bind v3OfFloats; pure { A with pos := v }
+  | "zax" :: r => do let v ← (floatsOfToks r).bind v3OfFloats; pure { A with zAxis := v }
+  | "xax" :: r => do let v ← (floatsOfToks r).bind v3OfFloats; pure { A with xAxis := v }
+  | ["af", v] => do let v ← floatOfTok v; pure { A with af := v }
+  | ["eff", v] => do let v ← floatOfTok v; pure { A with eff := v }
+  | _ => none
+
 /-- outer `none` = malformed request, inner `none` = the constructor raises -/
-def parseAntenna (g : List String) : Option (Option Antenna) :=
+def parseAntennaBase (g : List String) : Option (Option Antenna) :=
   match g with
   | "A" :: r => do
     let fs ← floatsOfToks r
@@ -68,6 +92,17 @@ def parseAntenna (g : List String) : Option (Option Antenna) :=
       pure ((mkDipole ⟨p1, p2, p3⟩ ⟨o1, o2, o3⟩ cf bw eh (⟨0, 0, 0⟩ :: tvs)).map (·.1))
     | _ => none
   | _ => none
+
+def parseAntenna (g : List String) : Option (Option Antenna) :=
+  match splitSemi g with
+  | base :: recs =>
+    match parseAntennaBase base with
+    | some (some A) =>
+      match recs.foldlM applyRecord A with
+      | some A' => some (some A')
+      | none => none
+    | other => if recs.isEmpty then other else (match other with | some none => some none | _ => none)
+  | [] => none
 
 def parseGains (g : List String) : Option ((Float → Float → Float) × (Antenna → V3 → Float)) :=
   match g with
